@@ -32,8 +32,14 @@ Definition inline_sets_null : bool := has CallCloseLib inline_close && has SetHa
 Definition inline_clears : bool := has ClearDict inline_close.
 Definition ool_sets_null : bool := has SetHandleNull ool_close.
 Definition ool_clears : bool := has ClearDict ool_close.
-
 Inductive mode := Inline | Ool.
+(* does an access path test "closed" BEFORE it calls dlsym()?  If it does not, dlsym(NULL, name) is
+   dlsym(RTLD_DEFAULT, name) on glibc: a symbol that is resolvable in the process-global scope (the library
+   also open elsewhere with RTLD_GLOBAL, a libc name on a dlopen(None) lib) is found and the closed lib object
+   behaves as if it were open — the model then takes that worst case *)
+Definition unchecked (m : mode) : bool :=
+  negb (match m with Inline => inline_checks_first | Ool => ool_fetch_checks_first end).
+
 Inductive exn := ValueError | FFIError | AttributeError | OverflowError | NoSuchLib.
 
 Inductive out :=
@@ -59,6 +65,7 @@ Definition is_const (n : name) : bool := match n with NConst _ => true | _ => fa
 Record lib := { lmode : mode; lopen : bool;
                 ldict : list name; lprops : list nat; laddr : list nat }.
 Record state := { mem : list Z; libs : list lib }.
+Definition usable (L : lib) : bool := lopen L || unchecked (lmode L).
 
 Inductive op :=
 | OpRead (l v : nat)               (* lib.var_v *)
@@ -119,7 +126,7 @@ Definition fetch_fn (d : desc) (L : lib) (f : nat) : lib * option exn :=
   | None => (L, Some AttributeError)
   | Some _ =>
       if dict_in (NFn f) (ldict L) then (L, None)
-      else if lopen L then (with_dict L (dict_add (NFn f) (ldict L)), None)
+      else if usable L then (with_dict L (dict_add (NFn f) (ldict L)), None)
       else (L, Some (closed_exn (lmode L)))
   end.
 
@@ -129,7 +136,7 @@ Definition inline_prop (L : lib) (v : nat) : lib := with_props L (set_add v (lpr
 (* ---- out-of-line: get the GlobSupport object of variable v (cached, else cdlopen_fetch) *)
 Definition ool_globsupport (L : lib) (v : nat) : lib * option exn :=
   if dict_in (NVar v) (ldict L) then (L, None)
-  else if lopen L then (with_dict L (dict_add (NVar v) (ldict L)), None)
+  else if usable L then (with_dict L (dict_add (NVar v) (ldict L)), None)
   else (L, Some FFIError).
 
 Definition step_lib (d : desc) (m : list Z) (L : lib) (o : op) : list Z * lib * out :=
@@ -140,7 +147,7 @@ Definition step_lib (d : desc) (m : list Z) (L : lib) (o : op) : list Z * lib * 
       | Some _ =>
           match lmode L with
           | Inline => let L' := inline_prop L v in
-                      if lopen L' then (m, L', OInt (nth v m 0)) else (m, L', OErr ValueError)
+                      if usable L' then (m, L', OInt (nth v m 0)) else (m, L', OErr ValueError)
           | Ool => match ool_globsupport L v with
                    | (L', None) => (m, L', OInt (nth v m 0))
                    | (L', Some e) => (m, L', OErr e)
@@ -153,7 +160,7 @@ Definition step_lib (d : desc) (m : list Z) (L : lib) (o : op) : list Z * lib * 
       | Some b =>
           match lmode L with
           | Inline => let L' := inline_prop L v in
-                      if lopen L' then let '(m', r) := write_var b m v z in (m', L', r)
+                      if usable L' then let '(m', r) := write_var b m v z in (m', L', r)
                       else (m, L', OErr ValueError)
           | Ool => match ool_globsupport L v with
                    | (L', None) => let '(m', r) := write_var b m v z in (m', L', r)
@@ -186,7 +193,7 @@ Definition step_lib (d : desc) (m : list Z) (L : lib) (o : op) : list Z * lib * 
                  make_accessor; then addressof_var: addr_variables cache, else load_function *)
               let L' := inline_prop L v in
               if mem_in v (laddr L') then (m, L', OPtr v)
-              else if lopen L' then (m, with_addr L' (set_add v (laddr L')), OPtr v)
+              else if usable L' then (m, with_addr L' (set_add v (laddr L')), OPtr v)
               else (m, L', OErr ValueError)
           | Ool => match ool_globsupport L v with
                    | (L', None) => (m, L', OPtr v)
